@@ -94,6 +94,7 @@ def _roundtrip(job, scratch):
             scale = rng.choice([1, 1, 10, 1e3, 1e4])
             s.order = [round(rng.uniform(-scale, scale), rng.choice([2, 6, 9,
                                                                     12]))
+                       if rng.random() > 0.05 else rng.choice([0.0, 1.0, -1.0])
                        for _ in range(ncv)]
             fi = rng.randrange(nfiles)
             idx = rng.choice([None, 0]) if rng.random() < 0.1 else \
@@ -103,6 +104,10 @@ def _roundtrip(job, scratch):
             if emode == "all" or (emode == "partial" and rng.random() < 0.5):
                 s.vpot = round(rng.uniform(-1e4, 1e4), 8)
                 s.ekin = round(rng.uniform(0, 1e4), 8)
+                if rng.random() < 0.1:     # special values
+                    s.vpot = rng.choice([0.0, -0.0, 1.0, -1e-7])
+                if rng.random() < 0.1:
+                    s.ekin = rng.choice([0.0, 1e-7, 1.0])
             path.phasepoints.append(s)
             spec.append((list(s.order), os.path.basename(files[fi]), idx,
                          s.vel_rev, s.vpot, s.ekin))
@@ -147,16 +152,17 @@ def _roundtrip(job, scratch):
                            f"frame {k} -> {fn}")
                     break
                 if len(fr.order) != len(o) or any(
-                        abs(float(a) - b) > 0.5e-6 + 1e-11 * max(1, abs(b))
+                        not (abs(float(a) - b) <= 0.5e-6 + 1e-11 *
+                             max(1, abs(b)))
                         for a, b in zip(fr.order, o)):
                     bad = ("roundtrip-order", f"frame {k}: stored {o} loaded "
                            f"{list(fr.order)}")
                     break
-                if vp is not None and (fr.vpot is None or
-                                       abs(float(fr.vpot) - vp) > 0.5e-6 +
-                                       1e-11 * max(1, abs(vp)) or
-                                       abs(float(fr.ekin) - ek) > 0.5e-6 +
-                                       1e-11 * max(1, abs(ek))):
+                if vp is not None and (fr.vpot is None or fr.ekin is None or
+                                       not (abs(float(fr.vpot) - vp) <= 0.5e-6
+                                            + 1e-11 * max(1, abs(vp))) or
+                                       not (abs(float(fr.ekin) - ek) <= 0.5e-6
+                                            + 1e-11 * max(1, abs(ek)))):
                     bad = ("roundtrip-energy", f"frame {k}: stored ({vp},"
                            f"{ek}) loaded ({fr.vpot},{fr.ekin})")
                     break
